@@ -4,7 +4,7 @@ use tmverif::evidence::finish;
 use tmverif::findings::Findings;
 
 fn usage() -> ! {
-  eprintln!("usage: tmverif check <ID> <quick|thorough> | tmverif replay <ID> <file>");
+  eprintln!("usage: tmverif check <ID> <quick|thorough> | tmverif replay <ID> <file> | tmverif trace <ID> <mapper replay file>");
   std::process::exit(2)
 }
 
@@ -61,6 +61,13 @@ fn main() {
       };
       let code = finish(&cfg, &rep, &findings, t0.elapsed().as_secs_f64());
       std::process::exit(code);
+    }
+    "trace" => {
+      if let Err(v) = tmverif::props_mapper::trace(&args[3]) {
+        eprintln!("trace failed: {}", v.detail);
+        std::process::exit(2);
+      }
+      std::process::exit(0);
     }
     "replay" => {
       let file = &args[3];
